@@ -1,6 +1,8 @@
 /-
 Lemmas about the rewriter's splice (`Model/Rewrite.lean`): its overlap skipping is the same greedy
 filter as the CLI's `process_diffs_interactive`, on positions relative to the captured slice.
+Second part: the repaired splice (`makeEditFixed`/`joinByFixed`) never fails, is the closed form on
+the clamped edits, and agrees with the pinned one wherever that one does not panic.
 -/
 import AstGrepVerif.Lemmas.Interactive
 
@@ -78,5 +80,169 @@ theorem joinByGo_eq (start : Nat) (joiner : Bytes) :
       simp only [bind, Except.bind, pure, Except.pure, hc, hc', if_false]
       rw [ih _ hpos']
       simp [List.flatMap_cons, REdit.rel]
+
+/-! ### the repaired splice (`makeEditFixed`, `joinByFixed`) -/
+
+/-- an edit as the repaired `make_edit` sees it: relative to the captured slice of length `len`,
+both end-points clamped to the slice (`min … len`, `clamp(pos, len)`) -/
+def REdit.relClamp (offset len : Nat) (e : REdit) : Diff :=
+  { start := min (e.position - offset) len,
+    stop := max (min (e.position - offset) len) (min (e.position + e.deleted - offset) len),
+    rep := e.inserted }
+
+theorem REdit.relClamp_wf (offset len : Nat) (e : REdit) :
+    (e.relClamp offset len).start ≤ (e.relClamp offset len).stop := by
+  simp only [REdit.relClamp]; omega
+
+theorem REdit.relClamp_stop_le (offset len : Nat) (e : REdit) : (e.relClamp offset len).stop ≤ len := by
+  simp only [REdit.relClamp]; omega
+
+/-- an edit inside the slice is not changed by the clamping -/
+theorem REdit.relClamp_eq_rel (offset len : Nat) (e : REdit) (hp : offset ≤ e.position)
+    (hs : e.position - offset + e.deleted ≤ len) : e.relClamp offset len = e.rel offset := by
+  simp only [REdit.relClamp, REdit.rel, Diff.mk.injEq, and_true]
+  omega
+
+/-- the repaired loop never fails (cursor inside the slice), and is the closed form of the
+specification on the clamped edits kept by the greedy filter -/
+theorem makeEditFixedGo_eq_segments (old : Bytes) (offset : Nat) :
+    ∀ (edits : List REdit) (start : Nat), start ≤ old.length →
+      makeEditFixedGo old offset start edits
+        = .ok (segments old start
+            ((processDiffsGo start (edits.map (REdit.relClamp offset old.length))).map Diff.toEdit)) := by
+  intro edits
+  induction edits with
+  | nil =>
+    intro start hs
+    simp [makeEditFixedGo, byteSliceFrom, hs, processDiffsGo, segments]
+  | cons e es ih =>
+    intro start hs
+    simp only [makeEditFixedGo, List.map_cons, processDiffsGo]
+    by_cases hc : start > min (e.position - offset) old.length
+    · have hc' : (REdit.relClamp offset old.length e).start < start := hc
+      simp only [hc, hc', if_true]
+      exact ih start hs
+    · have hc' : ¬ (REdit.relClamp offset old.length e).start < start := hc
+      have hle : start ≤ min (e.position - offset) old.length := by omega
+      have hpl : min (e.position - offset) old.length ≤ old.length := Nat.min_le_right ..
+      have hnext : max (min (e.position - offset) old.length)
+          (min (e.position + e.deleted - offset) old.length) ≤ old.length := by omega
+      simp only [bind, Except.bind, pure, Except.pure, hc, hc', if_false,
+        byteSlice_ok hle hpl, List.map_cons, segments]
+      rw [ih _ hnext]
+      rfl
+
+/-- a panic-free run of the pinned loop started with its cursor inside the slice -/
+theorem makeEditGo_ok_start_le (old : Bytes) (offset : Nat) :
+    ∀ (edits : List REdit) (start : Nat) (r : Bytes),
+      makeEditGo old offset start edits = .ok r → start ≤ old.length := by
+  intro edits
+  induction edits with
+  | nil =>
+    intro start r h
+    simp only [makeEditGo, byteSliceFrom] at h
+    split at h
+    · assumption
+    · cases h
+  | cons e es ih =>
+    intro start r h
+    simp only [makeEditGo, subUsize] at h
+    by_cases hp : offset ≤ e.position
+    · simp only [hp, if_true, bind, Except.bind] at h
+      by_cases hc : start > e.position - offset
+      · simp only [hc, if_true] at h
+        exact ih start r h
+      · simp only [hc, if_false, byteSlice] at h
+        by_cases hb : start ≤ e.position - offset ∧ e.position - offset ≤ old.length
+        · omega
+        · simp only [hb, if_false] at h
+          cases h
+    · simp only [hp, if_false, bind, Except.bind] at h
+      cases h
+
+/-- **whenever the pinned loop does not panic the repaired loop returns the same bytes** -/
+theorem makeEditFixedGo_eq_of_pinned_ok (old : Bytes) (offset : Nat) :
+    ∀ (edits : List REdit) (start : Nat) (r : Bytes),
+      makeEditGo old offset start edits = .ok r → makeEditFixedGo old offset start edits = .ok r := by
+  intro edits
+  induction edits with
+  | nil => intro start r h; simpa [makeEditGo, makeEditFixedGo] using h
+  | cons e es ih =>
+    intro start r h
+    simp only [makeEditGo, subUsize] at h
+    simp only [makeEditFixedGo]
+    by_cases hp : offset ≤ e.position
+    · simp only [hp, if_true, bind, Except.bind] at h
+      by_cases hc : start > e.position - offset
+      · have hc' : start > min (e.position - offset) old.length := by omega
+        simp only [hc, if_true] at h
+        simp only [hc', if_true]
+        exact ih start r h
+      · simp only [hc, if_false, byteSlice] at h
+        by_cases hb : start ≤ e.position - offset ∧ e.position - offset ≤ old.length
+        · simp only [hb, and_self, if_true] at h
+          cases hrest : makeEditGo old offset (e.position - offset + e.deleted) es with
+          | error err => rw [hrest] at h; cases h
+          | ok rest =>
+            rw [hrest] at h
+            have hlen := makeEditGo_ok_start_le old offset es _ rest hrest
+            have hmin : min (e.position - offset) old.length = e.position - offset := by omega
+            have hnext : max (e.position - offset) (min (e.position + e.deleted - offset) old.length)
+                = e.position - offset + e.deleted := by omega
+            have hc' : ¬ start > e.position - offset := hc
+            simp only [hmin, hnext, hc', if_false, bind, Except.bind, byteSlice, hb, and_self, if_true,
+              ih _ rest hrest]
+            exact h
+        · simp only [hb, if_false] at h
+          cases h
+    · simp only [hp, if_false, bind, Except.bind] at h
+      cases h
+
+/-- the repaired `joinBy` loop never fails and is the greedy filter on the (saturating) relative
+positions, for ANY edit list -/
+theorem joinByFixedGo_eq (start : Nat) (joiner : Bytes) :
+    ∀ (edits : List REdit) (pos : Nat),
+      joinByFixedGo start joiner pos edits
+        = .ok ((processDiffsGo pos (edits.map (REdit.rel start))).flatMap (fun d => joiner ++ d.rep)) := by
+  intro edits
+  induction edits with
+  | nil => intro pos; rfl
+  | cons e es ih =>
+    intro pos
+    simp only [joinByFixedGo, List.map_cons, processDiffsGo]
+    by_cases hc : pos > e.position - start
+    · have hc' : (REdit.rel start e).start < pos := hc
+      simp only [hc, hc', if_true]
+      exact ih pos
+    · have hc' : ¬ (REdit.rel start e).start < pos := hc
+      simp only [bind, Except.bind, pure, Except.pure, hc, hc', if_false]
+      rw [ih _]
+      simp [List.flatMap_cons, REdit.rel]
+
+/-- whenever the pinned `joinBy` loop does not panic the repaired one returns the same bytes -/
+theorem joinByFixedGo_eq_of_pinned_ok (start : Nat) (joiner : Bytes) :
+    ∀ (edits : List REdit) (pos : Nat) (r : Bytes),
+      joinByGo start joiner pos edits = .ok r → joinByFixedGo start joiner pos edits = .ok r := by
+  intro edits
+  induction edits with
+  | nil => intro pos r h; simpa [joinByGo, joinByFixedGo] using h
+  | cons e es ih =>
+    intro pos r h
+    simp only [joinByGo, subUsize] at h
+    simp only [joinByFixedGo]
+    by_cases hp : start ≤ e.position
+    · simp only [hp, if_true, bind, Except.bind] at h
+      by_cases hc : pos > e.position - start
+      · simp only [hc, if_true] at h ⊢
+        exact ih pos r h
+      · simp only [hc, if_false] at h ⊢
+        cases hrest : joinByGo start joiner (e.position - start + e.deleted) es with
+        | error err => rw [hrest] at h; cases h
+        | ok rest =>
+          rw [hrest] at h
+          simp only [bind, Except.bind, ih _ rest hrest]
+          exact h
+    · simp only [hp, if_false, bind, Except.bind] at h
+      cases h
 
 end AGV
